@@ -2,6 +2,9 @@ package gen
 
 import (
 	"fmt"
+	"os"
+	"sort"
+	"strings"
 
 	"verif/internal/core"
 )
@@ -71,7 +74,10 @@ func ExtraC15(tier string) func(sc *core.Scratch, ev *core.Evidence, rep *core.R
 			if err != nil || p2[1] == nil {
 				return false
 			}
-			return fmt.Sprint(p2[1].Names) != fmt.Sprint(p.Names) || fmt.Sprint(p2[1].Finals) != fmt.Sprint(p.Finals)
+			if os.Getenv("VERIF_DEBUG") != "" {
+				fmt.Fprintf(os.Stderr, "DEBUG regen-shape %s override=%v\n first=%v %v\n second=%v %v\n", c.Origin, c2.AliasOverride, p.Names, p.Finals, p2[1].Names, p2[1].Finals)
+			}
+			return canonNames(p2[1].Names) != canonNames(p.Names) || canonFinals(p2[1].Finals) != canonFinals(p.Finals)
 		}
 		v, _, err := EvaluateCases("C15", "C15lib", cases, sc, ev, rep)
 		if err != nil {
@@ -215,4 +221,32 @@ func CorpusArgs() []*Case {
 		}
 	}
 	return out
+}
+
+// TLC prints sets in no particular order: canonical text for comparison
+func canonFinals(f [][][]string) string {
+	var regs []string
+	for _, r := range f {
+		var ps []string
+		for _, pq := range r {
+			ps = append(ps, strings.Join(pq, "="))
+		}
+		sort.Strings(ps)
+		regs = append(regs, strings.Join(ps, ","))
+	}
+	sort.Strings(regs)
+	return strings.Join(regs, " | ")
+}
+
+func canonNames(n [][][]string) string {
+	var scopes []string
+	for _, alts := range n {
+		var as []string
+		for _, a := range alts {
+			as = append(as, strings.Join(a, ","))
+		}
+		sort.Strings(as)
+		scopes = append(scopes, strings.Join(as, "|"))
+	}
+	return strings.Join(scopes, " ; ")
 }
